@@ -255,6 +255,10 @@ def check(ctx):
         # and the converse reinterpretation that rests on the same layout: a slice viewed as arrays plus a remainder stays inside the slice (C10.C)
         for f in ("chunks_from_slice", "chunks_from_slice_mut"):
             c10.check_chunks(ctx, cfg, c10.K + f)
+        # "viewing the array as a .. native array": slices of arrays and slices of native arrays of the same length are one another's views -
+        # same address, same element count, for every N including 0 (C10.X)
+        for f in ("from_chunks", "from_chunks_mut", "into_chunks", "into_chunks_mut"):
+            c10.check_transmute(ctx, cfg, c10.K + f)
     run_lattice(ctx, ctx.builds["F0"], ctx.tier, "F0")
     if ctx.tier == "thorough":
         from .. import run as R
